@@ -219,7 +219,7 @@ def check_case(case, ctx):
     st_, F3 = call(M.paranoia_mode, data=one)
     if st_ == "ok":
         judge_output("C15/leak", "%s, filter applied to a record holding only the BIP84 section" % what, F3, U, secrets, scalars, ctx)
-        if not isinstance(F3, dict) or json.loads(json.dumps(F3.get("BIP84"))) != json.loads(json.dumps(F["BIP84"])):
+        if not isinstance(F3, dict) or json.loads(json.dumps(F3.get("BIP84"))) != json.loads(json.dumps(F.get("BIP84") if isinstance(F, dict) else None)):
             raise Violation("C15/identity/public-data-changed", "%s: filtering the BIP84 section alone gives %r" % (what, str(F3)[:200]))
     st_, js = call(w.json, F)
     if st_ == "exc":
